@@ -4,13 +4,14 @@ import json, os
 V = os.path.dirname(os.path.dirname(os.path.abspath(__file__)))
 ids = [json.loads(l)["id"] for l in open(os.path.join(V, "properties.jsonl"))]
 
-TRUST = ("Trusted: Verus+Z3, rustc front end, the vx extractor (rewrite rules R0-R19 logged per run), the prelude "
+TRUST = ("Trusted: Verus+Z3, rustc front end, the vx extractor (rewrite rules R0-R37 logged per run), the prelude "
          "stand-ins for dependencies (listed per run in evidence.trusted_base). ")
 
 SMNOTE = (TRUST + "State-machine group: the embedder traits (Storage, PolicyEngine, Installer, Timer, TimeSource, MetricsReporter, HttpRequest, "
           "AppSet, Cupv2Handler) are stand-ins whose answers are unconstrained and whose interactions are recorded in ghost logs; Rc<Mutex<_>> is "
-          "modelled as uniquely owned; RequestBuilder is an opaque type carrying the builder view; pinned fragments (install join block, "
-          "app_responses closure, `.all()`), std iterator-adapter semantics of four outlined fragments and the derive expansions are assumed; "
+          "modelled as uniquely owned; RequestBuilder is an opaque type carrying the builder view; pinned fragments (the install join block, "
+          "the app_responses closure, the target-version fallback closure), std iterator-adapter semantics of two outlined `map(..).collect::<HashMap>()` fragments and the derive expansions are assumed "
+          "(the filter / find / all / fold adapters are stand-ins whose contracts are stated over the closure's own, verified, contract); RequestBuilder's assumed contracts are the ones proved of the real builder in the rb group; "
           "select! is replaced by a stand-in whose branch choice is arbitrary (any scheduler), pin/waker mechanics are dropped. ")
 
 CLAIMS = {
@@ -57,7 +58,7 @@ CLAIMS = {
    text="Proof (Verus) of the real perform_update_check (475 lines), yield_state, make_app_responses, make_not_updated_result: the sequence of announced states equals a path table "
         "determined by the result and the policy log (error / no update / deferred / denied / installing / installation error), the server response is announced iff authenticated and parsed, "
         "the no-update path is taken iff the announced response offers no update, and the result lists the response's apps in order with cohort and day.",
-   note=SMNOTE + "Per-app action alignment inside the app_responses closure is a pinned (assumed) fragment. run's clause (each check followed by Idle, WaitingForReboot in between iff a reboot is pending) is a spliced assertion in the real run loop; start_update_check's (schedule, protocol state, exactly one result last) a postcondition.",
+   note=SMNOTE + "Per-app action alignment inside the app_responses closure is a pinned (assumed) fragment. run's clause (each check followed by Idle, WaitingForReboot in between iff a reboot is pending) is a loop invariant of the real run loop plus a spliced assertion; start_update_check's (schedule, protocol state, exactly one result last) a postcondition.",
    technique="contract-based deductive verification (Verus) with ghost interaction logs", design="4/C04"),
  "C05": dict(
    text="Proof (Verus) over the real run, wait_for_reboot, perform_update_check, ping_omaha, report_omaha_event_and_update_context: the machine returns without any interaction if an app is invalid; a negative check decision leads to no request/install in that iteration; "
@@ -91,7 +92,7 @@ CLAIMS = {
  "C10": dict(
    text="Proof (Verus) of report_omaha_event_and_update_context: exactly the apps with an entry in next_versions get the event, with previous version = app version and next version = offered manifest version, "
         "session id kept, fresh request id, sent at most once, lost event counted exactly once iff delivery failed; Event::success/error shapes; manifest version accessor.",
-   note=SMNOTE + "Per-path choice of events inside perform_update_check and the zip alignment are not yet named obligations.",
+   note=SMNOTE + "In perform_update_check: which event is reported on which path (parse error, plan error, deferred, denied, download started, per-app results, update complete), to exactly the offered apps (status ok, matched to known apps by id), and that every report is made before the function can return are named obligations; the per-app action alignment lives in an assumed fragment.",
    technique="contract-based deductive verification (Verus) with ghost interaction logs", design="4/C10"),
  "C12": dict(
    text="Proof (Verus) of update_next_update_time (policy asked with current apps/schedule/state, answer stored as next_update_time, one ScheduleChange announced), make_wait_to_next_check (timers armed for exactly the time bound and the minimum wait; "
